@@ -32,6 +32,7 @@ import (
 	"errors"
 	"fmt"
 	"io"
+	"os"
 	"sort"
 	"strings"
 	"sync"
@@ -390,6 +391,8 @@ type replayCase struct {
 	// notation.Verify over a repository listing these signatures in this order, Page per listing callback (0 = all)
 	List []replayEnv `json:"list,omitempty"`
 	Page int         `json:"page,omitempty"`
+	// notation.VerifyBlob over a faulty view of Content (faults.go)
+	Fault *faultSpec `json:"reader_fault,omitempty"`
 }
 
 var ctx = context.Background()
@@ -538,6 +541,9 @@ func main() {
 			res = runHistory(r, w, c.Blob, c.Level,
 				histCall{e: c.Prior.Env.env(c.Family), desc: c.Prior.Desc, content: pcontent, statedMT: c.Prior.StatedMT, required: c.Prior.Required},
 				histCall{e: e, desc: c.Desc, content: content, statedMT: c.StatedMT, required: c.Required}, c.SameMap)
+		case c.Fault != nil:
+			content, _ := base64.StdEncoding.DecodeString(c.Content)
+			res = runBlobFault(r, w, e, content, c.StatedMT, c.Level, !c.Unnamed, *c.Fault)
 		case c.Blob:
 			content, _ := base64.StdEncoding.DecodeString(c.Content)
 			res = runBlobVia(r, w, e, content, c.StatedMT, c.Required, c.Level, storeAnswer(c.Store), c.PM, !c.Unnamed, c.Reader, c.Direct)
@@ -567,6 +573,13 @@ func main() {
 
 	pluginExt := []forge.Attr{{Key: forge.HdrPlugin, Critical: true, Value: "acceptall"}}
 
+	if os.Getenv("C01_DEV") != "" { // DEVTEMP
+		extra := &ctl{}
+		readerFaultFamily(r, w, []vt.Level{strictL, auditAllLog}, fewLevels, extra)
+		pairEncodingFamily(r, w, fewLevels, extra)
+		fmt.Println("dev controls", extra.ok, extra.n)
+		r.Finish()
+	}
 	// ---------- family (i): fresh envelopes ----------
 	var fresh []*env
 	var freshBlob []*env
@@ -809,6 +822,10 @@ func main() {
 	// (viii) digest algorithm of signed blob descriptors; (ix) keys of the required-metadata map (keysalgs.go)
 	otherAlgFamily(r, w, fewLevels, extra)
 	requiredKeyFamily(r, w, fewLevels, extra)
+	// (x) blob readers that fail part-way (faults.go); (xi) required pairs colliding with signed pairs under a
+	// flattening of pairs / maps into strings (pairs.go)
+	readerFaultFamily(r, w, []vt.Level{strictL, auditAllLog}, fewLevels, extra)
+	pairEncodingFamily(r, w, fewLevels, extra)
 	controls += extra.n
 	controlsOK += extra.ok
 	r.Extra["positive_controls_new_families"] = fmt.Sprintf("%d of %d", extra.ok, extra.n)
